@@ -75,7 +75,8 @@ def gen_block(rng, qs, out_cap, style, nc_budget, noise_budget):
         lines.append(f"H {qs[0]}")
         for a, b in zip(qs, qs[1:]):
             lines.append(f"CX {a} {b}")
-        rounds = rng.randint(1, max(1, out_cap // len(qs)))
+        rmax = max(1, out_cap // len(qs))
+        rounds = rmax if rng.random() < 0.5 else rng.randint(1, rmax)
         for r in range(rounds):
             for _ in range(rng.randint(0, 3)):
                 x = rng.random()
@@ -144,15 +145,16 @@ def gen_block(rng, qs, out_cap, style, nc_budget, noise_budget):
     return lines
 
 
-def gen_circuit(rng, nq, *, bs_max=6, out_cap=12, nc_max=3, noise_max=4, detectors=False) -> str:
+def gen_circuit(rng, nq, *, bs_max=6, out_cap=12, nc_max=3, noise_max=4, detectors=False,
+                styles=("ghz", "rand", "rand", "syn")) -> str:
     qs = list(range(nq))
     blocks = []
     i = 0
     while i < nq:
-        b = rng.randint(1, bs_max)
+        b = rng.randint(1, bs_max) if rng.random() < 0.6 else rng.randint(max(1, bs_max - 2), bs_max)
         blocks.append(qs[i:i + b])
         i += b
-    per = [gen_block(rng, b, out_cap, rng.choice(["ghz", "rand", "rand", "syn"]), rng.choice([0, 0, 1, 2, nc_max]),
+    per = [gen_block(rng, b, out_cap, rng.choice(list(styles)), rng.choice([0, 0, 1, 2, nc_max]),
                      rng.choice([0, 1, 2, noise_max])) for b in blocks]
     lines: list[str] = []
     idx = [0] * len(per)
